@@ -66,8 +66,13 @@ func (s *httpProxy) Handle(ctx context.Context, conn net.Conn) error {
 
 	defer conn2.Close()
 
+	// one buffered reader per direction for the whole connection: a reader made
+	// per message loses whatever it has read ahead (pipelined requests, the start
+	// of the next reply)
+	reader := bufio.NewReader(conn)
+	reader2 := bufio.NewReader(conn2)
+
 	for {
-		reader := bufio.NewReader(conn)
 		req, err := http.ReadRequest(reader)
 		if err == io.EOF {
 			return nil
@@ -107,7 +112,6 @@ func (s *httpProxy) Handle(ctx context.Context, conn net.Conn) error {
 
 		var resp *http.Response
 
-		reader2 := bufio.NewReader(conn2)
 		resp, err = http.ReadResponse(reader2, req)
 		if err == io.EOF {
 			return nil
